@@ -75,7 +75,7 @@ pub fn pstr(s: &str) -> String {
         let g = |i: usize| ch.get(i).copied().unwrap_or(0x1F_FFFF);
         ws.push((g(0) | (g(1) << 21) | (g(2) << 42)).to_string());
     }
-    format!("(U [{}])", ws.join(";"))
+    format!("(U [{}]%uint63)", ws.join(";"))
 }
 pub fn c_term(t: &ST) -> String {
     match t {
@@ -828,7 +828,7 @@ pub fn run(mode: &str) {
                 check_one(&format!("limits ({},{}) in {}", df1000 as f32 / 1000.0, pl, STORES[store]), &d, &order, &out, &spec1, df1000, pl, &mut fails);
                 sum.bump(&format!("outcome:{}", ["ok", "unsupported-blank-predicate", "unsupported-term", "toxic-depth", "toxic-permutations", "panic"].get(out.code as usize).unwrap_or(&"other")));
                 if a.only.is_some() { println!("RUN limits=({df1000}/1000,{pl}) store={} order={} => code {} {} bytes={:?} idmap={:?}", STORES[store], show_d(&order), out.code, out.msg, out.bytes, out.idmap); }
-                body.push(format!("three_ok {once} tbl {df1000}%N {pl}%N {} {}%N {} {}", c_quads(&order), out.code, pstr(&out.bytes), c_idmap(&out.idmap)));
+                body.push(format!("three_ok {once} tbl {df1000} {pl} {} {} {} {}", c_quads(&order), out.code, pstr(&out.bytes), c_idmap(&out.idmap)));
             }
             text.push_str(&format!(" limits=({dfg},{plg})"));
         } else {
@@ -868,8 +868,8 @@ pub fn run(mode: &str) {
                 println!("ORIGINAL store={} order={} => code {} {} bytes={:?} idmap={:?}", STORES[s1], show_d(&o1), out1.code, out1.msg, out1.bytes, out1.idmap);
                 println!("COPY store={} order={} => code {} {} bytes={:?} idmap={:?}", STORES[s2], show_d(&o2), out2.code, out2.msg, out2.bytes, out2.idmap);
             }
-            body.push(format!("impl_ok {once} tbl 1000%N 6%N {} {}%N {} {}", c_quads(&o1), out1.code, pstr(&out1.bytes), c_idmap(&out1.idmap)));
-            body.push(format!("impl_ok {once} tbl 1000%N 6%N {} {}%N {} {}", c_quads(&o2), out2.code, pstr(&out2.bytes), c_idmap(&out2.idmap)));
+            body.push(format!("impl_ok {once} tbl 1000 6 {} {} {} {}", c_quads(&o1), out1.code, pstr(&out1.bytes), c_idmap(&out1.idmap)));
+            body.push(format!("impl_ok {once} tbl 1000 6 {} {} {} {}", c_quads(&o2), out2.code, pstr(&out2.bytes), c_idmap(&out2.idmap)));
             text.push_str(&format!(" copy={}", show_d(&d2)));
         }
         let table = take_table();
@@ -895,7 +895,7 @@ pub fn run(mode: &str) {
         cases.push((idx, format!("let tbl := {} in {}", coq_table(&table), body.join(" && "))));
     }
     if a.only.is_none() {
-        let header = if c06 { "From Coq Require Import Uint63.\nFrom Sophia.C05 Require Import Model.\nFrom Sophia.C06 Require Import Model.\nLocal Open Scope uint63_scope." } else { "From Coq Require Import Uint63.\nFrom Sophia.C05 Require Import Model.\nLocal Open Scope uint63_scope." };
+        let header = if c06 { "From Coq Require Import Uint63.\nFrom Sophia.C05 Require Import Model.\nFrom Sophia.C06 Require Import Model." } else { "From Coq Require Import Uint63.\nFrom Sophia.C05 Require Import Model." };
         sum.shards = write_shards(&a.out, header, &cases, a.shards);
         sum.extra.push(("max_hash_table_entries".into(), max_table.to_string()));
         std::fs::write(format!("{}/summary.json", a.out), sum.to_json()).unwrap();
